@@ -133,6 +133,9 @@ def gen_case(rng):
     # 'diag': T is diagonal (pure rescaling of the rank index).  QR-based orthogonalisation is invariant under such
     # scalings, so the result must be accurate to roundoff relative to ||x||, not merely relative to prod ||G_k||
     p['gauge_kind'] = rng.choice(['rot', 'diag'])
+    # exact zeros: zeros(N) + x puts an all-zero block first in every core (zero pivots in the orthogonalisation);
+    # 'dead' zeroes one rank slice of one core
+    p['zeros'] = rng.choice([None] * 6 + ['front', 'back', 'dead']) if (p['graded'] is None and p['gauge'] is None) else None
     return p
 
 
@@ -171,7 +174,23 @@ def build(p):
                 Ti = v_.conj().t() @ torch.diag(1.0 / sv) @ u_.conj().t()
             cores[k] = torch.tensordot(cores[k], T, dims=([cores[k].dim() - 1], [0]))
             cores[k + 1] = torch.tensordot(Ti, cores[k + 1], dims=([1], [0]))
-    return TT(cores)
+    x = TT(cores)
+    z = p.get('zeros')
+    if z and d >= 1:
+        if p.get('M'):
+            zz = torchtt.zeros([(m, n) for m, n in zip(p['M'], p['N'])], dtype=gen.DTYPES[p['dt']])
+        else:
+            zz = torchtt.zeros(list(p['N']), dtype=gen.DTYPES[p['dt']])
+        if z == 'front':
+            x = zz + x
+        elif z == 'back':
+            x = x + zz
+        elif d > 1:
+            cs = [c.clone() for c in x.cores]
+            k = p['vseed'] % (d - 1)
+            cs[k][..., 0] = 0
+            x = TT(cs)
+    return x
 
 
 def expected(p, x):
@@ -264,7 +283,7 @@ def exec_case(p, res, plans=None, rng=None):
     x = build(p)
     snap = take_snap(x)
     call, No, Mo, ref = expected(p, x)
-    fam = ('graded|' if p.get('graded') else ('gauge_%s|' % p.get('gauge_kind')) if p.get('gauge') else '') + '%s|%s|din%d|dout%d|%s|%s|%s' % (p['routine'], p['dt'], len(p['N']), len(No), 'default' if p['eps'] is None else 'tiny' if p['eps'] < 1e-9 else 'eps',
+    fam = ('graded|' if p.get('graded') else ('gauge_%s|' % p.get('gauge_kind')) if p.get('gauge') else ('zeros_%s|' % p['zeros']) if p.get('zeros') else '') + '%s|%s|din%d|dout%d|%s|%s|%s' % (p['routine'], p['dt'], len(p['N']), len(No), 'default' if p['eps'] is None else 'tiny' if p['eps'] < 1e-9 else 'eps',
                                            'in1' if p['N'][-1] == 1 else '', 'out1' if No and No[-1] == 1 else '')
     y0, exc, f0 = svdfault.run_with_plan(call, {})
     core.bump(stats, 'calls')
